@@ -413,11 +413,24 @@ def _pop_line_before_zid(words: list[str]) -> str:
     spaces = " " * num_spaces
 
     symbol = words.pop(0)
+    _pop_empty_words(words)
 
     priority = ""
-    if len(words[0]) == 2 and words[0][0] == "P" and words[0][1].isdigit():
+    if (
+        words
+        and len(words[0]) == 2
+        and words[0][0] == "P"
+        and words[0][1].isdigit()
+    ):
         priority = f"{words.pop(0)} "
+        _pop_empty_words(words)
     return f"{spaces}{symbol} {priority}"
+
+
+def _pop_empty_words(words: list[str]) -> None:
+    """Drops the empty 'words' that irregular spacing leaves after a prefix."""
+    while words and words[0] == "":
+        words.pop(0)
 
 
 def _update_zo_file(
